@@ -203,7 +203,7 @@ func checkC28(c *Ctx, r *Report) {
 			{"MetadataResponseTopicPartition", []string{"ErrorCode", "Partition", "LeaderEpoch"}, "Partitions", map[string]int64{"Leader": 0}, []string{"Replicas", "ISR"}, false},
 			{"MetadataResponseTopic", []string{"ErrorCode", "Topic", "TopicID", "IsInternal"}, "Topics", nil, nil, true},
 		} {
-			sites := appendSitesT(bp, "kmsg."+t.typ)
+			sites := elemSitesT(bp, "kmsg."+t.typ)
 			nLit := 0
 			for _, site := range sites {
 				if site.Alloc == nil {
@@ -215,9 +215,9 @@ func checkC28(c *Ctx, r *Report) {
 					// pass-through of the source element
 					key := "error topics are passed through unchanged"
 					if t.passThru && dependsOnField(whole[0], "", t.srcList) {
-						r.ok("C28.T1", key, m.Pos(site.Call.Pos()), "")
+						r.ok("C28.T1", key, m.Pos(site.At.Pos()), "")
 					} else {
-						r.viol("C28.T1", key, m.Pos(site.Call.Pos()), t.typ+" entry appended from "+describe(whole[0]))
+						r.viol("C28.T1", key, m.Pos(site.At.Pos()), t.typ+" entry appended from "+describe(whole[0]))
 					}
 					continue
 				}
@@ -225,7 +225,7 @@ func checkC28(c *Ctx, r *Report) {
 				for _, f := range t.copied {
 					key := fmt.Sprintf("%s.%s is copied from the source element's %s", t.typ, f, f)
 					if len(fs[f]) != 1 {
-						r.viol("C28.T1", key, m.Pos(site.Call.Pos()), fmt.Sprintf("field set %d times (a field left at its zero value loses the source's value)", len(fs[f])))
+						r.viol("C28.T1", key, m.Pos(site.At.Pos()), fmt.Sprintf("field set %d times (a field left at its zero value loses the source's value)", len(fs[f])))
 						continue
 					}
 					v := fs[f][0].Val
@@ -245,9 +245,9 @@ func checkC28(c *Ctx, r *Report) {
 						}
 						r.viol("C28.T1", key, m.Pos(fs[f][0].Pos()), "value is "+describe(fs[f][0].Val))
 					} else if want == 0 && len(fs[f]) == 0 {
-						r.ok("C28.T1", key, m.Pos(site.Call.Pos()), "zero value")
+						r.ok("C28.T1", key, m.Pos(site.At.Pos()), "zero value")
 					} else {
-						r.viol("C28.T1", key, m.Pos(site.Call.Pos()), "set more than once")
+						r.viol("C28.T1", key, m.Pos(site.At.Pos()), "set more than once")
 					}
 				}
 				for _, f := range t.lists {
@@ -255,7 +255,7 @@ func checkC28(c *Ctx, r *Report) {
 					if len(fs[f]) == 1 && constIntSliceLiteral(fs[f][0].Val, 0) {
 						r.ok("C28.T1", key, m.Pos(fs[f][0].Pos()), "")
 					} else {
-						r.viol("C28.T1", key, m.Pos(site.Call.Pos()), "not the one-element literal {0}")
+						r.viol("C28.T1", key, m.Pos(site.At.Pos()), "not the one-element literal {0}")
 					}
 				}
 				if t.typ == "MetadataResponseTopic" {
@@ -272,9 +272,9 @@ func checkC28(c *Ctx, r *Report) {
 						}
 					}
 					if okP {
-						r.ok("C28.T1", key, m.Pos(site.Call.Pos()), "")
+						r.ok("C28.T1", key, m.Pos(site.At.Pos()), "")
 					} else {
-						r.viol("C28.T1", key, m.Pos(site.Call.Pos()), "Partitions is not the list appended in the partition loop")
+						r.viol("C28.T1", key, m.Pos(site.At.Pos()), "Partitions is not the list appended in the partition loop")
 					}
 				}
 			}
@@ -306,7 +306,7 @@ func checkC28(c *Ctx, r *Report) {
 				if header == nil {
 					continue
 				}
-				isAppend := func(in ssa.Instruction) bool { return isAppendOf(in, "kmsg."+t.typ) }
+				isAppend := func(in ssa.Instruction) bool { return isElemProducer(in, "kmsg."+t.typ) }
 				found, _, path := search(SearchSpec{Start: Loc{b, 0}, Target: func(in ssa.Instruction) bool { return in.Block() == header }, Blocker: isAppend})
 				key := fmt.Sprintf("every source %s yields an entry", strings.TrimPrefix(t.typ, "MetadataResponse"))
 				if found {
